@@ -149,10 +149,13 @@ pub fn answers(th: bool) -> Vec<Option<MVal>> {
         Some(obj(vec![("x", s("a")), ("f", MVal::Int(1)), ("g", arr(vec![s("a")]))])),
         Some(MVal::Null),
         Some(MVal::Bool(true)),
+        // text that starts and ends inside a multi-byte character for every byte offset 1..3
+        Some(s("éa€")),
     ];
     if th {
         v.extend(vec![
             Some(s("")),
+            Some(s("aé")),
             Some(MVal::Int(i64::MIN)),
             Some(MVal::Int(i64::MAX)),
             Some(MVal::Float(f64::INFINITY)),
@@ -363,6 +366,17 @@ pub fn run(tier: Tier) -> i32 {
     specs.extend(gen::family_castconds(0).into_iter().step_by(if th { 1 } else { 3 }));
     specs.extend(gen::family_paths(0));
     specs.extend(gen::family_wide().into_iter().step_by(4));
+    // case-insensitive anchored needles (single and in lists): code that positions itself inside
+    // the document text by the needle's byte length meets the multi-byte answers here
+    {
+        use crate::gen::{e, list, st, Body};
+        for p in ["ia*", "i*b", "iab", "iab*", "i*ab", "ab*", "*ab", "i*a*"] {
+            specs.push(gen::RuleSpec::one(Body::Map(vec![e("f", st(p))])));
+            specs.push(gen::RuleSpec::one(Body::Map(vec![e("str(f)", st(p))])));
+            specs.push(gen::RuleSpec::one(Body::Map(vec![e("all(f)", list(vec![st(p), st("?a")]))])));
+            specs.push(gen::RuleSpec::one(Body::Map(vec![e("n", crate::gen::map(vec![e("x", st(p))]))])));
+        }
+    }
     let mx = gen::family_matrix(0);
     specs.extend(mx.into_iter().step_by(if th { 2 } else { 9 }));
     if th {
